@@ -56,11 +56,10 @@ func (x *Exec) evalCall(env *SpecEnv, e *ECall) SVal {
 		case VScalar:
 			if a.T != nil && a.T.G != nil {
 				if _, ok := a.T.G.Underlying().(*types.Map); ok {
-					if env.quant > 0 {
-						x.quiet++
-						defer func() { x.quiet-- }()
-					}
-					return SVal{VScalar{x.mapLen(env.st, a.T.G, v.T)}, intT}
+					// in contracts the length of a map is the cardinality of its key set
+					dom, _, _, ks, _ := mapNames(a.T.G)
+					d := x.heapGet(env.st, dom, ArrSort(SInt, ArrSort(ks, SBool)))
+					return SVal{VScalar{Ite(Eq(v.T, IntLit(0)), IntLit(0), x.card(Select(d, v.T)))}, intT}
 				}
 			}
 		}
@@ -197,7 +196,8 @@ func (x *Exec) evalCall(env *SpecEnv, e *ECall) SVal {
 		arrs := make([]Term, len(ts))
 		for i, t := range ts {
 			s := ArrSort(SInt, t.Sort)
-			arrs[i] = App("(as const "+string(s)+")", s, t)
+			_ = s
+			arrs[i] = x.constArray(SInt, t)
 		}
 		return SVal{VSeq{arrs, IntLit(1)}, &SType{Math: "seq", Elem: a.T}}
 	case "supd":
